@@ -258,13 +258,48 @@ fn run_lib(trace: &[TMsg], query: bool, filters: &[String], window: (usize, usiz
     Ok(())
 }
 
+/// `early_wait` value that stands for "until the file has been loaded completely"
+const EARLY_WAIT_PARSED: usize = usize::MAX;
+
+/// 8 500 - 20 000 messages of a plain world (long logs are about batch sizes, not about lifecycle corner cases)
+fn gen_big_session_trace(rng: &mut Rng) -> Vec<TMsg> {
+    let mut k = rng.sub("bigknobs");
+    let want = k.urange(8_500, 20_000);
+    let mut knobs = WorldKnobs::gen(&mut k, want);
+    knobs.f_clock_jump = false;
+    let (mut trace, _) = gen_world(&mut rng.sub("bigworld"), &knobs);
+    // a world may end early (few boots): repeat it with shifted times until the wanted length is reached
+    if !trace.is_empty() {
+        let span = trace.last().unwrap().rx_us - trace[0].rx_us + 1_000_000;
+        let base = trace.clone();
+        let mut round = 1u64;
+        while trace.len() < want {
+            for m in &base {
+                let mut m2 = m.clone();
+                m2.rx_us += span * round;
+                m2.boot += 0;
+                trace.push(m2);
+                if trace.len() >= want {
+                    break;
+                }
+            }
+            round += 1;
+        }
+    }
+    trace.truncate(want);
+    if trace.is_empty() {
+        trace.push(TMsg { ecu: 0, boot: 0, rx_us: WALL_BASE_US, ts: 1, has_ts: true, kind: K_LOG, app: 0, mcnt: 0, n: 1, flags: 0 });
+    }
+    trace
+}
+
 fn server_cmds(trace_len: usize, streams: &[StreamSpec], early_wait: usize, sorted: bool, one_pass: bool) -> (Vec<Cmd>, Vec<(usize, usize)>) {
     // returns commands and, per command index, (stream no, role) bookkeeping is recomputed in the checker
     let mut cmds = vec![Cmd::Open { variant: 0, sort: sorted, collect: if one_pass { "\"one_pass_streams\"".into() } else { "true".into() } }];
     let mut map = vec![(usize::MAX, 0)];
     for (si, s) in streams.iter().enumerate() {
         if si == 1 && early_wait > 0 {
-            cmds.push(Cmd::Wait(early_wait));
+            cmds.push(if early_wait == EARLY_WAIT_PARSED { Cmd::WaitParsed } else { Cmd::Wait(early_wait) });
             map.push((usize::MAX, 0));
         }
         cmds.push(Cmd::Stream { query: s.query, body: format!(r#"{{"window":[{},{}],"binary":{},"filters":{}{}}}"#, s.window.0, s.window.1, s.binary, filters_json(&s.filters), if one_pass { ",\"one_pass\":true" } else { "" }) });
@@ -663,10 +698,13 @@ impl Check for C16 {
             let window_growth = if k.chance(1, 3) { (0..k.urange(1, 3)).map(|_| (k.usize(nb), w1 + k.usize(n + 1))).collect() } else { vec![] };
             Case::Lib { trace, query: k.bool(), filters, window: (w0, w1), batches, chunk: *k.pick(&[1usize, 2, 7, 64, 3_000_000]), window_growth }
         } else {
-            let trace = gen_session_trace(rng, 250);
+            // one session in 150 serves a long log (more than any per-iteration batch of the server loop), and its
+            // second stream is requested only after the file has been loaded completely
+            let big = rng.sub("biglog").chance(1, 150);
+            let trace = if big { gen_big_session_trace(rng) } else { gen_session_trace(rng, 250) };
             let n = trace.len();
             let mut k = rng.sub("server");
-            let ns = k.urange(1, 3);
+            let ns = if big { 2 } else { k.urange(1, 3) };
             let mut streams = vec![];
             for _ in 0..ns {
                 let nf = k.weighted(&[25, 35, 25, 15]);
@@ -681,10 +719,27 @@ impl Check for C16 {
                 streams.push(StreamSpec { query, filters, window: (w0, w1), binary: query || k.chance(3, 4), changes, search, lookups, time_lookups });
             }
             let mut sched = SchedCfg::gen(&mut rng.sub("sched"));
-            sched.max_steps = 8_000_000;
+            sched.max_steps = if big { 400_000_000 } else { 8_000_000 };
             let sorted = k.chance(2, 5);
             let one_pass = k.chance(1, 4);
-            Case::Server { trace, streams, early_wait: *k.pick(&[0usize, 0, 5, 50, 400]), sched, server_max_read: *k.pick(&[0usize, 0, 7, 100]), sorted, one_pass }
+            let early_wait = *k.pick(&[0usize, 0, 5, 50, 400]);
+            if big {
+                // the late stream asks for (nearly) everything, as a query in two of three cases
+                let s = &mut streams[1];
+                s.query = k.chance(2, 3);
+                s.binary = s.query || s.binary;
+                if s.query {
+                    s.changes.clear();
+                    s.search = None;
+                    s.lookups.clear();
+                    s.time_lookups.clear();
+                }
+                if k.chance(2, 3) {
+                    s.filters.clear();
+                }
+                s.window = (k.usize(10), n + 10 - k.usize(20));
+            }
+            Case::Server { trace, streams, early_wait: if big && !one_pass { EARLY_WAIT_PARSED } else { early_wait }, sched, server_max_read: *k.pick(&[0usize, 0, 7, 100]), sorted, one_pass }
         }
     }
     fn run(c: &Case, ctx: &mut Ctx) -> Result<(), Violation> {
